@@ -19,11 +19,13 @@ def isVersionLine (l : String) : Bool :=
 /-- how the device answers one command -/
 abbrev Answer := String → List String
 
-/-- the device answers the synchronisation query with exactly one `SYS:VERSION` line and never sends such a
-    line otherwise (a receiver does not announce its firmware version spontaneously) -/
+/-- the device answers the synchronisation query with exactly one line, a `SYS:VERSION` line, and never sends
+    such a line otherwise (a receiver does not announce its firmware version spontaneously).  "Exactly one
+    line" matters: were the `SYS:VERSION` line followed by further lines of the same answer, the event could be
+    set before those lines are processed. -/
 def AnswerOk (answer : Answer) : Prop :=
   (∀ q, q ≠ versionQuery → ∀ l ∈ answer q, isVersionLine l = false) ∧
-  ((answer versionQuery).filter isVersionLine).length = 1
+  (∃ l, answer versionQuery = [l] ∧ isVersionLine l = true)
 
 inductive Stage where
   | idle
